@@ -934,6 +934,76 @@ func ruleOrder(c *Ctx, r *Rep) {
 		expectSet(r, "same-change|"+name, c.Pos(sa.st.call.Pos()), aliasOrigin(sa.st, sa.idx), "for the alias of the change at hand", elem+".Alias")
 	}
 	expectSet(r, "effective-config-stored|"+bk, c.Pos(put.call.Pos()), aliasOrigin(put, 1), "the planned effective configuration is what gets stored (and hashed)", elem+".EffectiveConfig")
+	// every planned change is generated: with the kind of the change at hand set to any kind the planner assigns,
+	// each test on the way to the generation step comes out the way that leads there
+	if ct := c.NamedType("generator/db", "ChangeType"); ct != nil {
+		leavesFor := func(k int64) map[ssa.Value]int64 {
+			l := map[ssa.Value]int64{}
+			for _, b := range bulk.Blocks {
+				for _, ins := range b.Instrs {
+					v, ok := ins.(ssa.Value)
+					if !ok || !types.Identical(v.Type(), ct) {
+						continue
+					}
+					if o := pv.Origins(v); len(o) == 1 && o[0] == elem+".Change" {
+						l[v] = k
+					}
+				}
+			}
+			return l
+		}
+		assigned := map[int64]bool{} // the kinds the planner gives to the entries it appends
+		for _, f := range c.Funcs {
+			for _, fs := range storesIntoType(c, f, "db.Change") {
+				if k, ok := fs.val().(*ssa.Const); ok && fs.field == "Change" && k.Value != nil {
+					assigned[k.Int64()] = true
+				}
+			}
+		}
+		for _, kc := range constsOfType(c, ct) {
+			if !assigned[kc.val] {
+				continue
+			}
+			leaves := leavesFor(kc.val)
+			bad := ""
+			for _, g := range guardsOf(gen.site.Block()) {
+				cond, truth := g.Cond, g.Truth
+				if u, ok := cond.(*ssa.UnOp); ok && u.Op == token.NOT {
+					cond, truth = u.X, !truth
+				}
+				bin, ok := cond.(*ssa.BinOp)
+				if !ok {
+					continue
+				}
+				a, ok1 := evalIntExpr(c, bin.X, leaves, nil, 0)
+				b, ok2 := evalIntExpr(c, bin.Y, leaves, nil, 0)
+				if !ok1 || !ok2 {
+					continue // not a test of the kind
+				}
+				var res bool
+				switch bin.Op {
+				case token.EQL:
+					res = a == b
+				case token.NEQ:
+					res = a != b
+				case token.LSS:
+					res = a < b
+				case token.LEQ:
+					res = a <= b
+				case token.GTR:
+					res = a > b
+				case token.GEQ:
+					res = a >= b
+				default:
+					continue
+				}
+				if res != truth {
+					bad = "the test at " + c.Pos(g.If.Pos()) + " turns it away"
+				}
+			}
+			r.Check(bad == "", "planned-kind-generated|"+kc.name, c.Pos(gen.site.Pos()), "a change of kind "+kc.name+" reaches the generation step", bad)
+		}
+	}
 	// ascending iteration: the index phi is incremented by one
 	asc := false
 	for _, b := range bulk.Blocks {
